@@ -63,13 +63,18 @@ func (e *env) sigMember(role, key string, covers []byte) (gen.ArMember, SigInfo)
 	return gen.ArMember{Name: "_gpg" + role, Data: sig}, SigInfo{Role: role, Signer: k.Fingerprint, SignerName: k.Name, Covers: covers}
 }
 
-func (e *env) newBase(cc, dc string) (base, error) {
+func (e *env) newBase(cc, dc, binary string) (base, error) {
 	m, exp := c14.SampleModel(cc, dc)
+	name := cc + "/" + dc
+	if binary != "" {
+		m.Binary = binary
+		name += fmt.Sprintf(" debian-binary=%q", binary)
+	}
 	mem, err := m.Members(e.c)
 	if err != nil {
 		return base{}, err
 	}
-	return base{name: cc + "/" + dc, model: m, exp: exp, mem: mem}, nil
+	return base{name: name, model: m, exp: exp, mem: mem}, nil
 }
 
 // mk builds an input from a member list.
@@ -202,13 +207,15 @@ func Run(r *mc.Run) {
 	}
 	r.Extra["keys"] = map[string]string{"K1": e.k1.Fingerprint, "K2": e.k2.Fingerprint}
 
-	pairs := [][2]string{{"gz", "gz"}, {"none", "none"}}
+	// the last column is the content of debian-binary ("" = the usual "2.0\n"); deb(5) allows further lines, the loader
+	// reads only the first, and the signer signs the whole member
+	pairs := [][3]string{{"gz", "gz", ""}, {"none", "none", ""}, {"gz", "gz", "2.0\nextra line\n"}}
 	if !r.Quick() {
-		pairs = append(pairs, [2]string{"xz", "zst"})
+		pairs = append(pairs, [3]string{"xz", "zst", ""}, [3]string{"none", "none", "2.0\n\n"})
 	}
 	var bases []base
 	for _, p := range pairs {
-		b, err := e.newBase(p[0], p[1])
+		b, err := e.newBase(p[0], p[1], p[2])
 		if err != nil {
 			fmt.Fprintf(os.Stderr, "C16: base %s/%s not covered: %v\n", p[0], p[1], err)
 			r.Extra["base_not_covered_"+p[0]+"_"+p[1]] = err.Error()
@@ -279,32 +286,90 @@ func Run(r *mc.Run) {
 	e.scenario("role-keyring-matrix", map[string]interface{}{"bases": names(bases), "role_present": roles, "role_asked": roles, "keyrings": keyrings,
 		"signature_member_position": []string{"end", "after-debian-binary"}, "extra": "two-signature package and the same with the two signature members' names swapped"}, ins, 8)
 
-	// ---- scenario 2: every byte of the three signed members and of the signature member, 2 (thorough 3) other values
+	// ---- scenario 2: every byte of the three signed members and of the signature member, 2 (thorough 3) other values;
+	// ---- scenario 2b: length-changing faults of the same four members: a byte inserted at every position (2 values),
+	// the byte at every position deleted, truncation at every position, and a list of appended suffixes.
+	// Inputs are generated inside the shards (position chunks) so that they are never all in memory.
 	xors := []byte{0x01, 0x80}
 	if !r.Quick() {
 		xors = append(xors, 0xff)
 	}
-	ins = nil
-	nb := len(bases)
-	positions := 0
-	for _, b := range bases[:nb] {
+	suffixes := []string{"\n", "x", "\x00", "\n\n", "xy", "extra line\n", "2.0\n", strings.Repeat("\x00", 512)}
+	inserted := []byte{0x00, 'x'}
+	type fshard struct {
+		b      int
+		mi     int
+		kind   string // xor | insert | delete | truncate | append
+		lo, hi int
+	}
+	fulls := make([][]gen.ArMember, len(bases))
+	sis := make([]SigInfo, len(bases))
+	for bi, b := range bases {
 		sm, si := e.sigMember("origin", "K1", b.signed())
-		full := append(append([]gen.ArMember(nil), b.mem...), sm)
-		for mi := range full {
-			for off := range full[mi].Data {
-				positions++
-				for _, x := range xors {
-					ms := append([]gen.ArMember(nil), full...)
-					d := append([]byte(nil), full[mi].Data...)
-					d[off] ^= x
-					ms[mi].Data = d
-					ins = append(ins, e.mk(b, "byte-fault", fmt.Sprintf("%s[%d]^=%#02x", full[mi].Name, off, x),
-						fmt.Sprintf("byte %d of member %s xor %#02x", off, full[mi].Name, x), ms, []SigInfo{si}, "origin", []string{"K1"}, false))
+		fulls[bi] = append(append([]gen.ArMember(nil), b.mem...), sm)
+		sis[bi] = si
+	}
+	const chunkLen = 128
+	var xorShards, lenShards []fshard
+	positions := 0
+	for bi := range bases {
+		for mi := range fulls[bi] {
+			n := len(fulls[bi][mi].Data)
+			positions += n
+			for lo := 0; lo < n; lo += chunkLen {
+				hi := lo + chunkLen
+				if hi > n {
+					hi = n
+				}
+				xorShards = append(xorShards, fshard{bi, mi, "xor", lo, hi})
+				for _, k := range []string{"insert", "delete", "truncate"} {
+					lenShards = append(lenShards, fshard{bi, mi, k, lo, hi})
 				}
 			}
+			// inserting after the last byte = appending one byte: covered by the suffix list
+			lenShards = append(lenShards, fshard{bi, mi, "append", 0, len(suffixes)})
 		}
 	}
-	e.scenario("byte-faults", map[string]interface{}{"bases": names(bases[:nb]), "members": "debian-binary, control.tar*, data.tar*, _gpgorigin", "byte_positions": positions, "xor_values": fmt.Sprintf("%#v", xors)}, ins, 64)
+	genFaults := func(sh fshard) []In {
+		b, full, si := bases[sh.b], fulls[sh.b], sis[sh.b]
+		orig := full[sh.mi].Data
+		name := full[sh.mi].Name
+		var out []In
+		emit := func(label, fault string, d []byte) {
+			ms := append([]gen.ArMember(nil), full...)
+			ms[sh.mi].Data = d
+			out = append(out, e.mk(b, "byte-fault", label, fault, ms, []SigInfo{si}, "origin", []string{"K1"}, false))
+		}
+		for i := sh.lo; i < sh.hi; i++ {
+			switch sh.kind {
+			case "xor":
+				for _, x := range xors {
+					d := append([]byte(nil), orig...)
+					d[i] ^= x
+					emit(fmt.Sprintf("%s[%d]^=%#02x", name, i, x), fmt.Sprintf("byte %d of member %s xor %#02x", i, name, x), d)
+				}
+			case "insert":
+				for _, v := range inserted {
+					d := append(append(append([]byte(nil), orig[:i]...), v), orig[i:]...)
+					emit(fmt.Sprintf("%s insert %#02x at %d", name, v, i), fmt.Sprintf("byte %#02x inserted before offset %d of member %s", v, i, name), d)
+				}
+			case "delete":
+				d := append(append([]byte(nil), orig[:i]...), orig[i+1:]...)
+				emit(fmt.Sprintf("%s delete [%d]", name, i), fmt.Sprintf("byte %d of member %s deleted", i, name), d)
+			case "truncate":
+				emit(fmt.Sprintf("%s truncated to %d", name, i), fmt.Sprintf("member %s truncated to its first %d bytes", name, i), append([]byte(nil), orig[:i]...))
+			case "append":
+				sfx := suffixes[i]
+				emit(fmt.Sprintf("%s + %d bytes %.12q", name, len(sfx), sfx), fmt.Sprintf("%d bytes %.20q appended to member %s", len(sfx), sfx, name), append(append([]byte(nil), orig...), sfx...))
+			}
+		}
+		return out
+	}
+	e.r.Scenario("byte-faults", map[string]interface{}{"bases": names(bases), "members": "debian-binary, control.tar*, data.tar*, _gpgorigin", "byte_positions": positions, "xor_values": fmt.Sprintf("%#v", xors)},
+		len(xorShards), func(i int, st *mc.Stats) bool { return runIns(e.r, "byte-faults", genFaults(xorShards[i]), st) })
+	e.r.Scenario("length-faults", map[string]interface{}{"bases": names(bases), "members": "debian-binary, control.tar*, data.tar*, _gpgorigin", "byte_positions": positions,
+		"insert_values_at_every_position": fmt.Sprintf("%#v", inserted), "delete_at_every_position": true, "truncate_at_every_position": true, "appended_suffixes": suffixes},
+		len(lenShards), func(i int, st *mc.Stats) bool { return runIns(e.r, "length-faults", genFaults(lenShards[i]), st) })
 
 	// ---- scenario 3: decoy control.* / data.* members at every position, each under the explored map orders
 	ins = nil
